@@ -302,6 +302,13 @@ func init() {
 			r := e.freshSV(resT, "vol", st.pc, st)
 			st.ghost["lastload"] = e.flatten(resT, r)[0]
 			st.ghost["recheck"] = "1"
+			if c := e.curContract; c != nil && fr.top {
+				for _, inv := range c.VolatileInv {
+					env := e.loopEnv(fr, st).with("v", TV{V: r, T: resT})
+					e.vc.assume(st.pc, e.evalBool(env, inv.Expr))
+					e.vc.usedExt["assumed of every value read from a volatile pointer: "+inv.Text] = true
+				}
+			}
 			return r
 		}
 		v := e.load(fr, st, fp, ft, "atomic pointer load") // unsafe.Pointer ref
